@@ -17,7 +17,7 @@ class Contract:
                  raises=None, raises_ensures=None, modifies=(), loops=None, inline=False,
                  trusted=False, prop=None, closure=None, note="", param_names=None,
                  allow_any_raise=False, replay=None, cases=None, ghost_params=None, frame=None,
-                 decreases=None, raise_modifies=(), assumes=(), ghost_after=None, inline_callees=(), tier="quick"):
+                 decreases=None, raise_modifies=(), assumes=(), ghost_after=None, inline_callees=(), tier="quick", call_inline=False):
         self.key = key
         self.params = dict(params or {})
         self.self_model = self_model
@@ -51,6 +51,9 @@ class Contract:
         self.ghost_after_src = dict(ghost_after or {})
         # callees executed from their real source (not via their contract) while verifying this function
         self.inline_callees = set(inline_callees)
+        # call sites execute the real body instead of assuming this contract (used where clauses talk about
+        # the interpreter-level callback log, which a modular call cannot reproduce)
+        self.call_inline = call_inline
         self.tier = tier   # 'thorough': only verified in the thorough tier (slow generation)
         self.inline = inline
         self.trusted = trusted
